@@ -656,7 +656,11 @@ func init() {
 		cached := cached
 		name := map[bool]string{false: "", true: " (cached filter)"}[cached]
 		fin := func(f typed.TFilter, q typed.TQuery) {
-			q.Close()
+			// closing a finished or closed query is documented as harmless, whatever was tried on it before
+			if p := try(func() { q.Close() }); p != nil {
+				d := finDrv
+				d.viol("C07", "close-panicked", "Close of a finished query%s panicked after the guarded misuse: %v", name, p)
+			}
 			if cached {
 				f.Unregister()
 			}
@@ -1000,10 +1004,14 @@ func (d *Drv) misuse(op *Op) {
 		}
 	}
 	d.Stat.Misuse[mc.Name+"/"+staleNames[op.Sub%NStale]]++
+	finDrv = d
 	mc.Run(d, op, h, aux)
 }
 
 var sink int64
+
+// finDrv is the driver executing the current misuse row (rows are closures built in init and get the driver per call).
+var finDrv *Drv
 
 // skipMisuse is the panic value used when a misuse row is not applicable in the current state.
 type skipMisuse struct{}
